@@ -128,6 +128,10 @@ def cross(o, a, b):
 
 
 # ----------------------------------------------------------------------------- implementation drivers
+def of_float_coord(c):
+    return (c.longitude, c.latitude)
+
+
 def impl_hull(pts):
     return [of_coord(c) for c in _geometry.convex_hull([C(p) for p in pts])]
 
@@ -593,6 +597,52 @@ def main():
                 perm_bad.append({'pts': S, 'permuted': q, 'out': r, 'out_permuted': r2, 'frame': frame_json(frame)})
                 break
     ck.cov['permutation_checks'] = perm_checks
+
+    # -- multi-shapes with CURVED members (fixed corpus, implementation side, exact rational arithmetic on the floats the
+    #    library itself samples): the hull asked for with a given k is the hull of the coordinates the members have for THAT
+    #    k, whatever was asked of the same object before (no k, another k, the same k again)
+    from fractions import Fraction as FQ
+    from geostructures import GeoEllipse, GeoRing, GeoCircle
+
+    def exact_hull_clauses(coords, ring):
+        P = [(FQ(x), FQ(y)) for x, y in coords]
+        Rg = [(FQ(x), FQ(y)) for x, y in ring]
+        out = []
+        if len(Rg) < 4 or Rg[0] != Rg[-1]:
+            return [('closed', 'ring is not closed')]
+        if any(v not in set(P) for v in Rg):
+            out.append(('subset', f'{sum(1 for v in Rg if v not in set(P))} hull vertices are not input coordinates'))
+        V = Rg[:-1]
+        n = len(V)
+
+        def cr(a, b, c):
+            return (b[0] - a[0]) * (c[1] - a[1]) - (b[1] - a[1]) * (c[0] - a[0])
+        if any(cr(V[i], V[(i + 1) % n], V[(i + 2) % n]) <= 0 for i in range(n)):
+            out.append(('strict_left', 'a vertex is collinear or a right turn'))
+        outside = sum(1 for p in set(P) if any(cr(V[i], V[(i + 1) % n], p) < 0 for i in range(n)))
+        if outside:
+            out.append(('contains', f'{outside} input coordinates lie outside the hull'))
+        return out
+    curved_checks = 0
+    CO = Coordinate
+    mk_sets = [lambda: [GeoEllipse(CO(4.0, 50.0), 90000, 30000, 25), GeoPolygon([CO(*p) for p in [(0, 49), (1, 49), (1, 50), (0, 50), (0, 49)]])],
+               lambda: [GeoRing(CO(20.0, 20.0), 20000, 80000, 30, 200), GeoCircle(CO(21.5, 20.5), 50000)],
+               lambda: [GeoEllipse(CO(-10.0, -35.0), 50000, 10000, 110), GeoRing(CO(-9.0, -35.5), 1000, 60000, 200, 340)]]
+    for mi, mk_members in enumerate(mk_sets):
+        mp = MultiGeoPolygon(mk_members())
+        for kq in [None, 36, 12, None, 36, 7, 12]:
+            kw = {'k': kq} if kq else {}
+            got = guarded(lambda: [of_float_coord(c) for c in mp.convex_hull(**kw).outline])
+            coords = [of_float_coord(c) for m in mk_members() for c in m.bounding_coords(**kw)]
+            curved_checks += 1
+            cl = [('raises', got[1])] if got[0] != 'Ok' else exact_hull_clauses(coords, got[1])
+            if cl:
+                ck.violation({'kind': 'property-fails-on-implementation', 'property_clauses_violated': cl,
+                              'case': {'k': 'curved-multi-hull', 'members': [repr(m) for m in mk_members()], 'requested_k': kq,
+                                       'history': 'convex_hull() with k in [None, 36, 12, None, 36, 7, 12] on ONE object, in this order'},
+                              'theorems': 'C10_hull_subset / C10_hull_contains / C10_hull_strict_left (on the coordinates for the requested k)'})
+                break
+    ck.cov['curved_multi_hull_checks'] = curved_checks
 
     ck.cov['evaluations'] = len(cases) + perm_checks
     ck.cov['distinct_nontrivial'] = len(seen_nontrivial)
